@@ -2398,6 +2398,22 @@ func (c *ChannelStateDB) AdvanceCommitChainTail(channel *OpenChannel,
 			return err
 		}
 
+		// Persist the local updates the peer hasn't yet signed so they
+		// can be restored after restart. This is done before looking
+		// at the unsigned acked updates below, as that key is absent
+		// until we revoke for the first time.
+		var b2 bytes.Buffer
+		err = serializeLogUpdates(&b2, updates)
+		if err != nil {
+			return err
+		}
+
+		err = chanBucket.Put(remoteUnsignedLocalUpdatesKey, b2.Bytes())
+		if err != nil {
+			return fmt.Errorf("unable to restore remote unsigned "+
+				"local updates: %v", err)
+		}
+
 		// Persist the unsigned acked updates that are not included
 		// in their new commitment.
 		updateBytes := chanBucket.Get(unsignedAckedUpdatesKey)
@@ -2437,20 +2453,6 @@ func (c *ChannelStateDB) AdvanceCommitChainTail(channel *OpenChannel,
 		if err != nil {
 			return fmt.Errorf("unable to store under "+
 				"unsignedAckedUpdatesKey: %w", err)
-		}
-
-		// Persist the local updates the peer hasn't yet signed so they
-		// can be restored after restart.
-		var b2 bytes.Buffer
-		err = serializeLogUpdates(&b2, updates)
-		if err != nil {
-			return err
-		}
-
-		err = chanBucket.Put(remoteUnsignedLocalUpdatesKey, b2.Bytes())
-		if err != nil {
-			return fmt.Errorf("unable to restore remote unsigned "+
-				"local updates: %v", err)
 		}
 
 		newRemoteCommit = &newCommit.Commitment
